@@ -207,6 +207,35 @@ func checkC16(c c16Case, rec *Rec) *Violation {
 			return viol(id, sig+":"+c.Kind, "list %q, page requested from %q: GetCosmeticOption=%03b, reference %03b", text, referrer, g, w)
 		}
 		return nil
+	case "engine-with-badfiltered-exception", "engine-with-specific-block":
+		// engine-with-badfiltered-exception: another cosmetic exception for the page is switched off by its $badfilter
+		// twin, listed before or after the page's exception; only the latter counts.  engine-with-specific-block: the page
+		// is requested from a referrer for which a $domain-restricted (non-important) blocking rule exists; an exception
+		// outranks it, so the exception still decides the option.
+		w := rules.CosmeticOptionAll &^ c16Disabled(c.Mods)
+		texts := []string{"@@|http://example.org/|$elemhide\n@@|http://example.org/|$elemhide,badfilter\n" + c16RuleText(c) + "\n",
+			c16RuleText(c) + "\n@@|http://example.org/|$jsinject,badfilter\n@@|http://example.org/|$jsinject\n",
+			"@@|http://example.org/|$generichide,badfilter\n@@|http://example.org/|$generichide\n" + c16RuleText(c) + "\n"}
+		referrer := ""
+		if c.Kind == "engine-with-specific-block" {
+			texts = []string{"||example.org^$domain=ref.example\n" + c16RuleText(c) + "\n", c16RuleText(c) + "\n|http://example.org/$domain=ref.example|other.example\n"}
+			referrer = "http://ref.example/page"
+		}
+		for _, text := range texts {
+			st, err := filterlist.NewRuleStorage([]filterlist.RuleList{&filterlist.StringRuleList{ID: 1, RulesText: text}})
+			if err != nil {
+				return viol(id, "C16:harness", "storage: %v", err)
+			}
+			res := urlfilter.NewEngine(st).MatchRequest(rules.NewRequest("http://example.org/", referrer, rules.TypeDocument))
+			if g := res.GetCosmeticOption(); g != w {
+				sig := "C16:option-mismatch"
+				if g&^w != 0 {
+					sig = "C16:option-reenabled"
+				}
+				return viol(id, sig+":"+c.Kind, "list %q, page requested from %q: GetCosmeticOption=%03b, reference %03b", text, referrer, g, w)
+			}
+		}
+		return nil
 	case "engine-with-important-block":
 		// an $important blocking rule matches the page as well, listed before or after the exception:
 		// an $important exception still decides the verdict, any other exception does not
@@ -362,7 +391,7 @@ func TestC16(t *testing.T) {
 		if shard() != 0 {
 			return nil
 		}
-		for _, kind := range []string{"exception", "engine", "block", "referrer-struct", "referrer-engine", "with-replace-rules", "engine-with-important-block", "engine-referrer-urlblock", "engine-with-stealth", "proxy"} {
+		for _, kind := range []string{"exception", "engine", "block", "referrer-struct", "referrer-engine", "with-replace-rules", "engine-with-important-block", "engine-referrer-urlblock", "engine-with-stealth", "engine-with-badfiltered-exception", "engine-with-specific-block", "proxy"} {
 			for mask := 0; mask < 1<<len(c16Mods); mask++ {
 				c := c16Case{Kind: kind, Mods: c16Subset(mask)}
 				rec.Eval()
